@@ -72,20 +72,26 @@ def questionPack (sz : Nat) (name : Bytes) (type cls : Nat) : R Bytes :=
   | .fuel => .fuel
 
 /-- rfc1035RRPack; `rdata = none` is a null `RR->rdata`. The flag of the result says that memcpy was called with a null
-source pointer (undefined behaviour, even for a zero length). `.ok ([], _)` is "return 0" (the record does not fit). -/
-def rrPack (sz : Nat) (name : Bytes) (type cls ttl rdlength : Nat) (rdata : Option Bytes) : R (Bytes × Bool) :=
+source pointer (undefined behaviour, even for a zero length). `.ok ([], _)` is "return 0" (the record does not fit).
+`guard` selects the copy of the RDATA: `true` — `if (RR->rdlength) memcpy(..)` (the code since /repo 17d6e84);
+`false` — the unconditional `memcpy(buf + off, RR->rdata, RR->rdlength)` before. -/
+def rrPackV (guard : Bool) (sz : Nat) (name : Bytes) (type cls ttl rdlength : Nat) (rdata : Option Bytes) : R (Bytes × Bool) :=
   match namePack sz name with
   | .ok b =>
     if b.length + 10 + rdlength > sz then .ok ([], false)
-    else .ok (b ++ be16 type ++ be16 cls ++ be32 ttl ++ be16 rdlength ++ ((rdata.getD []).take rdlength), rdata.isNone)
+    else .ok (b ++ be16 type ++ be16 cls ++ be32 ttl ++ be16 rdlength ++ ((rdata.getD []).take rdlength),
+              rdata.isNone && (!guard || rdlength != 0))
   | .err => .err
   | .oob => .oob
   | .abort => .abort
   | .fuel => .fuel
 
 /-- rfc2671RROptPack: name ".", type OPT, class = min(edns_sz, SQUID_UDP_SO_RCVBUF - 1), ttl 0, rdata = nullptr, rdlength 0 -/
-def optPack (sz : Nat) (edns : Nat) : R (Bytes × Bool) :=
-  rrPack sz [46] typeOPT ((if edns < udpRcvBuf - 1 then edns else udpRcvBuf - 1) % 65536) 0 0 none
+def optPackV (guard : Bool) (sz : Nat) (edns : Nat) : R (Bytes × Bool) :=
+  rrPackV guard sz [46] typeOPT ((if edns < udpRcvBuf - 1 then edns else udpRcvBuf - 1) % 65536) 0 0 none
+
+/-- the code of the staged tree (`Gen.DnsLimits.rrPackGuardsNull`) -/
+def optPack (sz : Nat) (edns : Nat) : R (Bytes × Bool) := optPackV rrPackGuardsNull sz edns
 
 /-- what a query builder leaves behind -/
 structure Built where
